@@ -1,6 +1,7 @@
 import PdfModel.Core.Proto
 import PdfModel.Model.Build
 import PdfModel.Drv.C09
+import PdfModel.Model.BuildBytes
 
 /-! Line-protocol handler for the C10 streams.
 
@@ -9,6 +10,11 @@ import PdfModel.Drv.C09
      measured record lengths
   → `ok/<tree>/<kid+kid+…>/<pid.res.content,…>/<catalog>/<info|n>/<xpos>/<size>/<aw.bw>/<objs>/<rows>/<len>/<xref data hex>`
     | `err` | `panic`
+  c10.bytes <info|n> <page|page|…>
+     `BuildBytes.buildB`: the whole file `PdfBuilder::build` returns. A page is
+     `<other>~<boxes>~<rest>~<resources>~<content hex>`: three dictionaries (entries in order) and a value in the
+     notation of Drv/Obj.lean, and the bytes of the content stream; `-` for no pages
+  → `ok/<hex of the file>` | `err` | `panic`
   c10.bytelen <n>          → byteLen n  (xref.rs `byte_len`, reached through `write_stream`)
   c10.table <e,e,…>        → `ok <aw>.<bw> <hex of the rows>` | `err`: `XRefTable::write_stream` of that table
 -/
@@ -25,12 +31,28 @@ def showObjs (os : List (Obj BT)) : String :=
 
 def natList (xs : List Nat) : String := if xs.isEmpty then "-" else joinWith "+" (xs.map toString)
 
+def parsePageB (s : String) : Option (BuildBytes.PageB (List UInt8)) :=
+  match s.splitOn "~" with
+  | [o, b, r, res, c] =>
+    match DrvObj.valOf o, DrvObj.valOf b, DrvObj.valOf r, DrvObj.valOf res, bytesOfHex c with
+    | some (.dict o), some (.dict b), some (.dict r), some res, some c => some ⟨o, b, r, res, c⟩
+    | _, _, _, _, _ => none
+  | _ => none
+
 def handle (args : List String) : String :=
   match args with
+  | ["c10.bytes", info, pages] =>
+    match (if info == "n" then some none else (DrvObj.valOf info).map some),
+          (if pages == "-" then some [] else mapM? parsePageB (pages.splitOn "|")) with
+    | some inf, some ps =>
+      match BuildBytes.buildB id ps inf with
+      | .ok bytes => "ok/" ++ hexOfBytes bytes
+      | o => o.tag
+    | _, _ => "bad-request"
   | ["c10.build", cached, n, info, lens, xl, tl] =>
     match boolOf cached, natOf n, boolOf info, DrvC09.parseLens lens, natOf xl, natOf tl with
     | some c, some n, some inf, some ls, some xl, some tl =>
-      let L : Layout := ⟨DrvC09.lookupLen ls, xl, tl⟩
+      let L : Layout := ⟨DrvC09.lookupLen ls, fun _ => xl, fun _ => tl⟩
       match build L c (pagesN n) (if inf then some 7 else none) with
       | .ok (d, i) =>
         let rd := resolve d.st
